@@ -33,6 +33,7 @@ fn vreplay_runes() {
     Edict { id: RuneId { block: p[0].parse().unwrap(), tx: p[1].parse().unwrap() }, amount: p[2].parse().unwrap(), output: p[3].parse().unwrap() }
   }).collect();
   let pointer: Option<u32> = if f[7] == "-" { None } else { Some(f[7].parse().unwrap()) };
+  let self_mint: Option<u128> = if f.len() > 8 && f[8] != "-" { Some(f[8].parse().unwrap()) } else { None };
 
   let artifact = match kind {
     0 => None,
@@ -59,7 +60,7 @@ fn vreplay_runes() {
     event_sender: None,
     height: 840000,
     outpoint_to_balances: &mut table,
-    stub: RuneStub { unallocated: ins.clone(), mint: mint_amount, etched: etched.map(|id| (id, Rune(0))) },
+    stub: RuneStub { unallocated: ins.clone(), mint: mint_amount, etched: etched.map(|id| (id, Rune(0))), self_mint, created: false },
   };
   updater.index_runes(1, &tx, Txid::all_zeros()).unwrap();
   let burned = updater.burned.clone();
